@@ -48,7 +48,10 @@ def gen_case(rng, kind=None):
     if nd == 2 and (cw - kw + 1) ** 2 * nc * kw ** 2 > 60000:
         cw = kw + 4
     kind = kind or rng.choice(["random", "random", "synth", "maps", "lowrank"])
-    return dict(kind=kind, shape=shape, nc=nc, calib_width=cw, kernel_width=kw,
+    extra = {}
+    if rng.random() < 0.15:
+        extra["coil0"] = "dead"      # a nearly dead first (phase-reference) channel: |m0| near the precision of the k-space dtype
+    return dict(extra, kind=kind, shape=shape, nc=nc, calib_width=cw, kernel_width=kw,
                 thresh=rng.choice([0.0, 0.001, 0.02, 0.02, 0.05, 0.1, 0.3]),
                 crop=rng.choice([0.0, 0.5, 0.8, 0.9, 0.95, 0.95, 0.99, 1.5]),
                 max_iter=rng.choice([1, 2, 3, 5, 10, 30, 100]), dtype=rng.choice(["complex64", "complex64", "complex64", "complex128"]),
@@ -84,6 +87,10 @@ def corpus():
              dtype="complex64", seed=3, recovery=True, kscale=1e-6),                                # tiny k-space, single precision
         dict(kind="random", shape=[8, 8], nc=2, calib_width=4, kernel_width=2, thresh=0.0, crop=0.0, max_iter=1,
              dtype="complex64", seed=2),
+        dict(kind="maps", shape=[16, 16], nc=4, calib_width=12, kernel_width=4, thresh=0.02, crop=0.9, max_iter=100,
+             dtype="complex64", seed=6, coil0="dead"),                                              # nearly dead reference channel
+        dict(kind="synth", shape=[16, 16], nc=4, calib_width=12, kernel_width=4, thresh=0.02, crop=0.9, max_iter=100,
+             dtype="complex128", seed=7, coil0="dead"),
         dict(kind="random", shape=[10, 12], nc=3, calib_width=6, kernel_width=3, thresh=0.02, crop=1.5, max_iter=5,
              dtype="complex64", seed=3),                                                            # everything cropped
         dict(kind="synth", shape=[8, 10, 12], nc=4, calib_width=8, kernel_width=3, thresh=0.02, crop=0.9, max_iter=30,
@@ -99,14 +106,21 @@ def make_ksp(sp, c):
     shape, nc = tuple(c["shape"]), c["nc"]
     axes = tuple(range(-len(shape), 0))
     true = None
+    dead = (1e-6 if c["dtype"] == "complex64" else 1e-14) if c.get("coil0") == "dead" else None
     if c["kind"] == "random":
         ksp = rs.standard_normal((nc,) + shape) + 1j * rs.standard_normal((nc,) + shape)
+        if dead:
+            ksp[0] *= dead
     elif c["kind"] == "lowrank":        # one random image seen through smooth random-phase coil profiles + a little noise
         img = rs.standard_normal(shape) + 1j * rs.standard_normal(shape)
         mps = mr.birdcage_maps((nc,) + shape) * np.exp(1j * rs.uniform(0, 2 * np.pi, (nc,) + (1,) * len(shape)))
+        if dead:
+            mps[0] *= dead
         ksp = sp.fft(mps * img, axes=axes) + 1e-3 * (rs.standard_normal((nc,) + shape) + 1j * rs.standard_normal((nc,) + shape))
     else:
         mps = mr.birdcage_maps((nc,) + shape)
+        if dead:
+            mps[0] *= dead
         true = mps / np.sqrt(np.sum(np.abs(mps) ** 2, axis=0))
         img = sp.shepp_logan(shape) if c["kind"] == "synth" else np.ones(shape)
         ksp = sp.fft(mps * img, axes=axes)
